@@ -248,7 +248,7 @@ fn c08_base() -> impl Strategy<Value = Case> {
             o1.bind_buf = 2;
             let dgrams = (0..ndg).map(|k| DgSpec { side: k % 2, flow_id: k as u32, host_len: 5, port: 1, data_len: 3, delay: k as u8 }).collect();
             let binds = binds.into_iter().map(|(side, dgram, delay)| BindSpec { side, dgram, host: b"h".to_vec(), port: 1, delay }).collect();
-            let bp = BindPolicy { answers: vec![ans.clone(), BindAnswer::Hold, ans], batch: 1, order: vec![], enabled: true };
+            let bp = BindPolicy { answers: vec![ans.clone(), BindAnswer::Hold, ans], batch: 1, order: vec![], enabled: true, ping_first: false };
             Case {
                 opts: [o0, o1],
                 cap: [c0, c1],
